@@ -182,3 +182,173 @@ def plan_serialise(seed, tier):
 
 
 SCENARIOS = {"serialise": plan_serialise}
+
+
+# =========================================================================== round trips
+
+def _seg_env(rng):
+    return {"hashseed": rng.choice([0, rng.randint(1, 4294967295)]),
+            "locale": rng.choice(["utf8", "utf8", "ascii", "utf8mode"])}
+
+
+def plan_roundtrip(fmt, seed, tier):
+    """C01/C05/C06/C07/C08 (+C02 on every model read): lineages of write -> disk -> read cycles,
+    across interpreter restarts, with and without faults."""
+    b = Builder(seed, "roundtrip." + fmt, tier)
+    rng = b.rng
+    faulty = rng.random() < 0.5
+    buggify = rng.random() < 0.5
+    b.plan["faulty"] = faulty
+    nseg = rng.choice([1, 2, 2, 3])
+    big = tier == "thorough"
+    pool = gen.name_pool(rng, fmt, rng.randint(6, 14 if not big else 40))
+    cfg = gen.default_cfg(rng, fmt, tier)
+    if rng.random() < 0.3:
+        cfg["nonascii_values"] = True
+    lineages = []   # dict(ref, handle or None, path or None)
+    path_ref = {}   # what each cleanly written path holds (as planned)
+    for _ in range(rng.randint(1, 3)):
+        c = dict(cfg)
+        if fmt == "fide" and rng.random() < 0.35:
+            c["force_no_ctc"] = True
+        lineages.append({"ref": gen.gen_model(rng, fmt, pool, c), "h": None, "path": None,
+                         "cfg": c})
+    for s in range(nseg):
+        b.segment(env=_seg_env(rng), disk_cfg=b.disk_cfg(buggify), cwd=rng.choice(DIRS))
+        last_seg = s == nseg - 1
+        # (re)materialise lineages: memory died with the previous interpreter
+        for lin in lineages:
+            lin["h"] = None
+        torn = False
+        nsteps = rng.randint(4, 14 if not big else 30)
+        for step in range(nsteps):
+            lin = rng.choice(lineages)
+            if lin["h"] is None:
+                if lin["path"] is not None and rng.random() < 0.7:
+                    h = b.handle()
+                    b.op(op="READ", fmt=fmt, path=lin["path"], **{"as": h},
+                         pathstyle=rng.choice(["abs", "rel"]))
+                    lin["h"] = h
+                    lin["ref"] = path_ref[lin["path"]]
+                else:
+                    h = b.handle()
+                    b.op(op="NEW", m=h, ref=lin["ref"], style=rng.choice(["td", "bu"]), frag=fmt)
+                    lin["h"] = h
+                continue
+            k = rng.random()
+            if k < 0.55:
+                # one or more write/read cycles
+                for _c in range(rng.choice([1, 1, 2, 3, 5])):
+                    path = lin["path"] if (lin["path"] and rng.random() < 0.5) else b.path(fmt)
+                    wop = {"op": "WRITE", "fmt": fmt, "m": lin["h"], "path": path,
+                           "writer": rng.choice(["fresh", "fresh", "reuse"]),
+                           "pathstyle": rng.choice(["abs", "rel"])}
+                    if rng.random() < 0.1:
+                        filler = ("{\"stale\": %d} " % rng.randint(0, 9)) * rng.choice([1, 60, 600])
+                        wop["stale"] = base64.b64encode(filler.encode()).decode()
+                    fired_hard = False
+                    if faulty and rng.random() < 0.15:
+                        wop["fault"] = b.write_fault()
+                        fired_hard = True
+                    b.op(**wop)
+                    if fired_hard:
+                        # whatever is there now, a reader must raise or give a well-formed model
+                        b.op(op="READ", fmt=fmt, path=path, missing_ok=True,
+                             pathstyle=rng.choice(["abs", "rel"]))
+                        if lin["path"] == path:
+                            lin["path"] = None
+                        break
+                    lin["path"] = path
+                    path_ref[path] = lin["ref"]
+                    rop = {"op": "READ", "fmt": fmt, "path": path, "as": b.handle(),
+                           "pathstyle": rng.choice(["abs", "rel"])}
+                    if fmt == "json" and rng.random() < 0.3:
+                        rop["via"] = "parse_json"
+                    if faulty and rng.random() < 0.1:
+                        rop["fault"] = b.read_fault()
+                        rop.pop("as")
+                        b.op(**rop)
+                        break
+                    b.op(**rop)
+                    lin["h"] = rop["as"]
+            elif k < 0.7:
+                edit, new = gen.gen_edit(rng, lin["ref"], fmt, pool, lin["cfg"])
+                if edit is not None:
+                    b.op(op="EDIT", m=lin["h"], edit=edit, ref_after=rm.project(fmt, new)
+                         if _is_readback(b, lin["h"]) else new)
+                    lin["ref"] = new
+            elif k < 0.8 and lin["path"] is not None:
+                rop = {"op": "READ", "fmt": fmt, "path": lin["path"], "as": b.handle(),
+                       "pathstyle": rng.choice(["abs", "rel"])}
+                if fmt == "json" and rng.random() < 0.5:
+                    rop["via"] = "parse_json"
+                b.op(**rop)
+            elif k < 0.9 and faulty and lin["path"] is not None:
+                kind = rng.choice(["bitflip", "subst", "zero_sector", "dup_sector",
+                                   "drop_sector", "truncate"])
+                b.op(op="CORRUPT", path=lin["path"], kind=kind, frac=rng.random(),
+                     bit=rng.randint(0, 7), byte=rng.choice([0x24, 0x00, 0xff, 0x7b, 0x3c, 0x22]),
+                     sector=rng.choice([16, 64]), fmt=fmt)
+                b.op(op="READ", fmt=fmt, path=lin["path"], pathstyle="abs")
+                lin["path"] = None
+            elif k < 0.95 and faulty and not last_seg and not torn:
+                # kill the process in the middle of a write; the segment ends here
+                path = lin["path"] if (lin["path"] and rng.random() < 0.5) else b.path(fmt)
+                b.op(op="WRITE", fmt=fmt, m=lin["h"], path=path, writer="fresh",
+                     pathstyle="abs", fault=b.tear_fault())
+                if lin["path"] == path:
+                    lin["path"] = None
+                lin["torn"] = path
+                torn = True
+                break
+            else:
+                nl = {"ref": gen.gen_model(rng, fmt, pool, cfg), "h": None, "path": None,
+                      "cfg": cfg}
+                lineages.append(nl)
+        if torn:
+            continue
+        if last_seg:
+            break
+    # the segment after a tear starts by reading what the killed writer left behind
+    _insert_torn_reads(b, fmt)
+    # HEAL: no more faults; every lineage does one clean write + read from a fresh build
+    b.segment(env=_seg_env(rng), disk_cfg={"bufsize": 8192}, cwd="d0")
+    for lin in lineages:
+        h = b.handle()
+        b.op(op="NEW", m=h, ref=lin["ref"], style="td", frag=fmt)
+        path = b.path(fmt, "d0")
+        b.op(op="WRITE", fmt=fmt, m=h, path=path, writer="fresh", pathstyle="abs", heal=True)
+        b.op(op="READ", fmt=fmt, path=path, pathstyle="abs", heal=True, **{"as": b.handle()})
+    nrep = 1 if rng.random() < (0.6 if tier == "quick" else 0.3) else 2
+    b.plan["replicas"] = [{"env": {}, "disk_cfg": {"default_encoding": "utf-8"}}]
+    if nrep == 2:
+        b.plan["replicas"].append({"env_by_segment": [_seg_env(rng) for _ in range(3)],
+                                   "disk_cfg": {"default_encoding": rng.choice(
+                                       ["ascii", "latin-1", "utf-16"])}})
+    return b.plan
+
+
+def _is_readback(b, handle):
+    """Was this handle introduced by a READ (its reference is then the projected one)?"""
+    for seg in b.plan["segments"]:
+        for op in seg["ops"]:
+            if op["op"] == "READ" and op.get("as") == handle:
+                return True
+            if op["op"] == "NEW" and op.get("m") == handle:
+                return False
+    return False
+
+
+def _insert_torn_reads(b, fmt):
+    segs = b.plan["segments"]
+    for sidx in range(len(segs) - 1):
+        ops = segs[sidx]["ops"]
+        if ops and ops[-1]["op"] == "WRITE" and (ops[-1].get("fault") or {}).get("kind") == "tear":
+            op = {"op": "READ", "fmt": fmt, "path": ops[-1]["path"], "pathstyle": "abs",
+                  "missing_ok": True, "i": b.i}
+            b.i += 1
+            segs[sidx + 1]["ops"].insert(0, op)
+
+
+for _fmt in HAS_READER:
+    SCENARIOS["roundtrip." + _fmt] = (lambda seed, tier, _f=_fmt: plan_roundtrip(_f, seed, tier))
